@@ -276,8 +276,10 @@ type loop struct {
 	stats   map[string]int
 	viol    []string
 	quiet   int
+	faulty  bool                    // inside the fault window
 	sched   *drummer.VerifScheduler // one long-lived scheduler per leader, as in Drummer; replaced now and then (leader change)
 	stamped map[[2]uint64]uint64    // (shard, member) -> last positive report time seen in the view while it stayed a member
+	late    []*pb.NodeHostInfo      // copies of reports that will arrive a second time, late (a retransmitted message)
 }
 
 func (l *loop) fail(prop, clause, sig, what string) {
@@ -438,6 +440,15 @@ func (l *loop) report(h *simHost, lost bool, replyLost bool) {
 			nhi.PlogInfo = append(nhi.PlogInfo, &pb.LogInfo{ShardId: k[0], ReplicaId: k[1]})
 		}
 	}
+	// one report in twelve will arrive a second time, late; a report that carries membership details (they are sent around
+	// membership changes, which is when a late copy matters) one time in two
+	full := false
+	for _, si := range nhi.ShardInfo {
+		full = full || len(si.Replicas) > 0
+	}
+	if l.faulty && (l.r.Intn(12) == 0 || (full && l.r.Intn(2) == 0)) {
+		l.late = append(l.late, proto.Clone(nhi).(*pb.NodeHostInfo))
+	}
 	v := l.upd(&pb.Update{Type: pb.Update_NODEHOST_INFO, NodehostInfo: nhi})
 	if !replyLost {
 		q, _ := proto.Marshal(&pb.LookupRequest{Type: pb.LookupRequest_REQUESTS, Address: h.addr})
@@ -448,6 +459,40 @@ func (l *loop) report(h *simHost, lost bool, replyLost bool) {
 		}
 		h.queue = append(h.queue, resp.Requests.Requests...)
 	}
+	l.record(fmt.Sprint(v))
+}
+
+// deliverLate: a copy of an earlier report arrives (again), whatever has happened in between; nobody waits for its reply
+func (l *loop) deliverLate() {
+	if len(l.late) == 0 {
+		return
+	}
+	k := l.r.Intn(len(l.late))
+	nhi := l.late[k]
+	l.late = append(l.late[:k], l.late[k+1:]...)
+	infos := []J{}
+	for _, si := range nhi.ShardInfo {
+		reps := [][]interface{}{}
+		ids := []uint64{}
+		for id := range si.Replicas {
+			ids = append(ids, id)
+		}
+		sort.Slice(ids, func(i, j int) bool { return ids[i] < ids[j] })
+		for _, id := range ids {
+			reps = append(reps, []interface{}{id, si.Replicas[id]})
+		}
+		infos = append(infos, J{"s": si.ShardId, "r": si.ReplicaId, "leader": si.IsLeader, "cci": si.ConfigChangeIndex, "inc": si.Incomplete, "pend": si.Pending, "reps": reps})
+	}
+	plog := [][]uint64{}
+	for _, li := range nhi.PlogInfo {
+		plog = append(plog, []uint64{li.ShardId, li.ReplicaId})
+	}
+	ids := nhi.ShardIdList
+	if ids == nil {
+		ids = []uint64{}
+	}
+	l.emit(J{"op": "late_report", "addr": nhi.RaftAddress, "rpc": nhi.RPCAddress, "region": nhi.Region, "plog_inc": nhi.PlogInfoIncluded, "plog": plog, "ids": ids, "infos": infos})
+	v := l.upd(&pb.Update{Type: pb.Update_NODEHOST_INFO, NodehostInfo: proto.Clone(nhi).(*pb.NodeHostInfo)})
 	l.record(fmt.Sprint(v))
 }
 
@@ -514,7 +559,10 @@ func (l *loop) schedule() {
 		if r.Change.Type == pb.Request_KILL {
 			if g := l.groups[r.Change.ShardId]; g != nil {
 				if a, ok := g.cur().members[r.Change.Members[0]]; ok && a == r.RaftAddress {
-					l.fail("C11", "member_never_killed", "current-member-killed", fmt.Sprintf("kill request for (%d,%d) on %s which is a member of the shard's current membership", r.Change.ShardId, r.Change.Members[0], a))
+					why := fmt.Sprintf("kill request for (%d,%d) on %s which is a member of the shard's current membership", r.Change.ShardId, r.Change.Members[0], a)
+					l.fail("C11", "member_never_killed", "current-member-killed", why)
+					// the loop itself takes a healthy member away (replica stopped, data erased): the opposite of healing
+					l.fail("C01", "no_self_inflicted_damage", "current-member-killed", why)
 				}
 			}
 		}
@@ -863,6 +911,9 @@ func (l *loop) faultyRound(longDown map[int]int) {
 			continue
 		}
 		l.report(h, l.r.Intn(10) == 0, l.r.Intn(10) == 0)
+		if l.r.Intn(6) == 0 {
+			l.deliverLate()
+		}
 		if l.r.Intn(5) != 0 {
 			l.execute(h)
 		}
@@ -963,9 +1014,16 @@ func main() {
 				}
 				run.Count("c01:whole_shard_outage")
 			}
+			l.faulty = true
 			l.faultyRound(longDown)
+			l.faulty = false
 			l.checkSafety()
 		}
+		// faults stop: what is still in flight arrives now or never
+		for len(l.late) > 0 && r.Intn(3) != 0 {
+			l.deliverLate()
+		}
+		l.late = nil
 		for _, h := range l.hosts {
 			l.restart(h)
 		}
